@@ -7,6 +7,12 @@ Lib/Bytestr.vos Lib/Bytestr.vok Lib/Bytestr.required_vos: Lib/Bytestr.v
 Lib/Sort.vo Lib/Sort.glob Lib/Sort.v.beautified Lib/Sort.required_vo: Lib/Sort.v 
 Lib/Sort.vio: Lib/Sort.v 
 Lib/Sort.vos Lib/Sort.vok Lib/Sort.required_vos: Lib/Sort.v 
+Gen/Bytest.vo Gen/Bytest.glob Gen/Bytest.v.beautified Gen/Bytest.required_vo: Gen/Bytest.v 
+Gen/Bytest.vio: Gen/Bytest.v 
+Gen/Bytest.vos Gen/Bytest.vok Gen/Bytest.required_vos: Gen/Bytest.v 
+Gen/Ctc16.vo Gen/Ctc16.glob Gen/Ctc16.v.beautified Gen/Ctc16.required_vo: Gen/Ctc16.v Lib/Base.vo Model/MimeCt.vo
+Gen/Ctc16.vio: Gen/Ctc16.v Lib/Base.vio Model/MimeCt.vio
+Gen/Ctc16.vos Gen/Ctc16.vok Gen/Ctc16.required_vos: Gen/Ctc16.v Lib/Base.vos Model/MimeCt.vos
 Gen/Handlers.vo Gen/Handlers.glob Gen/Handlers.v.beautified Gen/Handlers.required_vo: Gen/Handlers.v 
 Gen/Handlers.vio: Gen/Handlers.v 
 Gen/Handlers.vos Gen/Handlers.vok Gen/Handlers.required_vos: Gen/Handlers.v 
@@ -16,12 +22,33 @@ Gen/Spinnertabs.vos Gen/Spinnertabs.vok Gen/Spinnertabs.required_vos: Gen/Spinne
 Gen/Streamtabs.vo Gen/Streamtabs.glob Gen/Streamtabs.v.beautified Gen/Streamtabs.required_vo: Gen/Streamtabs.v 
 Gen/Streamtabs.vio: Gen/Streamtabs.v 
 Gen/Streamtabs.vos Gen/Streamtabs.vok Gen/Streamtabs.required_vos: Gen/Streamtabs.v 
+Model/Adapters.vo Model/Adapters.glob Model/Adapters.v.beautified Model/Adapters.required_vo: Model/Adapters.v Lib/Base.vo Lib/Sort.vo Gen/Bytest.vo
+Model/Adapters.vio: Model/Adapters.v Lib/Base.vio Lib/Sort.vio Gen/Bytest.vio
+Model/Adapters.vos Model/Adapters.vok Model/Adapters.required_vos: Model/Adapters.v Lib/Base.vos Lib/Sort.vos Gen/Bytest.vos
+Model/Content.vo Model/Content.glob Model/Content.v.beautified Model/Content.required_vo: Model/Content.v Lib/Base.vo Model/Utf8.vo Model/MimeCt.vo Gen/Ctc16.vo
+Model/Content.vio: Model/Content.v Lib/Base.vio Model/Utf8.vio Model/MimeCt.vio Gen/Ctc16.vio
+Model/Content.vos Model/Content.vok Model/Content.required_vos: Model/Content.v Lib/Base.vos Model/Utf8.vos Model/MimeCt.vos Gen/Ctc16.vos
+Model/Deferred.vo Model/Deferred.glob Model/Deferred.v.beautified Model/Deferred.required_vo: Model/Deferred.v Lib/Base.vo
+Model/Deferred.vio: Model/Deferred.v Lib/Base.vio
+Model/Deferred.vos Model/Deferred.vok Model/Deferred.required_vos: Model/Deferred.v Lib/Base.vos
+Model/DeferredMatchers.vo Model/DeferredMatchers.glob Model/DeferredMatchers.v.beautified Model/DeferredMatchers.required_vo: Model/DeferredMatchers.v Lib/Base.vo Model/Deferred.vo
+Model/DeferredMatchers.vio: Model/DeferredMatchers.v Lib/Base.vio Model/Deferred.vio
+Model/DeferredMatchers.vos Model/DeferredMatchers.vok Model/DeferredMatchers.required_vos: Model/DeferredMatchers.v Lib/Base.vos Model/Deferred.vos
+Model/Matchers.vo Model/Matchers.glob Model/Matchers.v.beautified Model/Matchers.required_vo: Model/Matchers.v Lib/Base.vo Lib/Sort.vo
+Model/Matchers.vio: Model/Matchers.v Lib/Base.vio Lib/Sort.vio
+Model/Matchers.vos Model/Matchers.vok Model/Matchers.required_vos: Model/Matchers.v Lib/Base.vos Lib/Sort.vos
+Model/MimeCt.vo Model/MimeCt.glob Model/MimeCt.v.beautified Model/MimeCt.required_vo: Model/MimeCt.v Lib/Base.vo Lib/Sort.vo
+Model/MimeCt.vio: Model/MimeCt.v Lib/Base.vio Lib/Sort.vio
+Model/MimeCt.vos Model/MimeCt.vok Model/MimeCt.required_vos: Model/MimeCt.v Lib/Base.vos Lib/Sort.vos
 Model/Reactor.vo Model/Reactor.glob Model/Reactor.v.beautified Model/Reactor.required_vo: Model/Reactor.v Lib/Base.vo
 Model/Reactor.vio: Model/Reactor.v Lib/Base.vio
 Model/Reactor.vos Model/Reactor.vok Model/Reactor.required_vos: Model/Reactor.v Lib/Base.vos
 Model/Router.vo Model/Router.glob Model/Router.v.beautified Model/Router.required_vo: Model/Router.v Lib/Base.vo
 Model/Router.vio: Model/Router.v Lib/Base.vio
 Model/Router.vos Model/Router.vok Model/Router.required_vos: Model/Router.v Lib/Base.vos
+Model/Run.vo Model/Run.glob Model/Run.v.beautified Model/Run.required_vo: Model/Run.v Lib/Base.vo Gen/Handlers.vo
+Model/Run.vio: Model/Run.v Lib/Base.vio Gen/Handlers.vio
+Model/Run.vos Model/Run.vok Model/Run.required_vos: Model/Run.v Lib/Base.vos Gen/Handlers.vos
 Model/Spinner.vo Model/Spinner.glob Model/Spinner.v.beautified Model/Spinner.required_vo: Model/Spinner.v Lib/Base.vo Model/Reactor.vo Gen/Spinnertabs.vo
 Model/Spinner.vio: Model/Spinner.v Lib/Base.vio Model/Reactor.vio Gen/Spinnertabs.vio
 Model/Spinner.vos Model/Spinner.vok Model/Spinner.required_vos: Model/Spinner.v Lib/Base.vos Model/Reactor.vos Gen/Spinnertabs.vos
@@ -34,15 +61,39 @@ Model/Suites.vos Model/Suites.vok Model/Suites.required_vos: Model/Suites.v Lib/
 Model/Tags.vo Model/Tags.glob Model/Tags.v.beautified Model/Tags.required_vo: Model/Tags.v Lib/Base.vo
 Model/Tags.vio: Model/Tags.v Lib/Base.vio
 Model/Tags.vos Model/Tags.vok Model/Tags.required_vos: Model/Tags.v Lib/Base.vos
+Model/Tfr.vo Model/Tfr.glob Model/Tfr.v.beautified Model/Tfr.required_vo: Model/Tfr.v Lib/Base.vo
+Model/Tfr.vio: Model/Tfr.v Lib/Base.vio
+Model/Tfr.vos Model/Tfr.vok Model/Tfr.required_vos: Model/Tfr.v Lib/Base.vos
 Model/Utf8.vo Model/Utf8.glob Model/Utf8.v.beautified Model/Utf8.required_vo: Model/Utf8.v Lib/Base.vo
 Model/Utf8.vio: Model/Utf8.v Lib/Base.vio
 Model/Utf8.vos Model/Utf8.vok Model/Utf8.required_vos: Model/Utf8.v Lib/Base.vos
+Spec/C01.vo Spec/C01.glob Spec/C01.v.beautified Spec/C01.required_vo: Spec/C01.v Lib/Base.vo Gen/Handlers.vo Model/Run.vo Spec/Run.vo
+Spec/C01.vio: Spec/C01.v Lib/Base.vio Gen/Handlers.vio Model/Run.vio Spec/Run.vio
+Spec/C01.vos Spec/C01.vok Spec/C01.required_vos: Spec/C01.v Lib/Base.vos Gen/Handlers.vos Model/Run.vos Spec/Run.vos
+Spec/C02.vo Spec/C02.glob Spec/C02.v.beautified Spec/C02.required_vo: Spec/C02.v Lib/Base.vo Gen/Handlers.vo Model/Run.vo Spec/Run.vo
+Spec/C02.vio: Spec/C02.v Lib/Base.vio Gen/Handlers.vio Model/Run.vio Spec/Run.vio
+Spec/C02.vos Spec/C02.vok Spec/C02.required_vos: Spec/C02.v Lib/Base.vos Gen/Handlers.vos Model/Run.vos Spec/Run.vos
+Spec/C03.vo Spec/C03.glob Spec/C03.v.beautified Spec/C03.required_vo: Spec/C03.v Lib/Base.vo Gen/Handlers.vo Model/Run.vo Spec/Run.vo
+Spec/C03.vio: Spec/C03.v Lib/Base.vio Gen/Handlers.vio Model/Run.vio Spec/Run.vio
+Spec/C03.vos Spec/C03.vok Spec/C03.required_vos: Spec/C03.v Lib/Base.vos Gen/Handlers.vos Model/Run.vos Spec/Run.vos
+Spec/C06.vo Spec/C06.glob Spec/C06.v.beautified Spec/C06.required_vo: Spec/C06.v Lib/Base.vo Lib/Sort.vo Model/Matchers.vo
+Spec/C06.vio: Spec/C06.v Lib/Base.vio Lib/Sort.vio Model/Matchers.vio
+Spec/C06.vos Spec/C06.vok Spec/C06.required_vos: Spec/C06.v Lib/Base.vos Lib/Sort.vos Model/Matchers.vos
+Spec/C08.vo Spec/C08.glob Spec/C08.v.beautified Spec/C08.required_vo: Spec/C08.v Lib/Base.vo Model/Adapters.vo
+Spec/C08.vio: Spec/C08.v Lib/Base.vio Model/Adapters.vio
+Spec/C08.vos Spec/C08.vok Spec/C08.required_vos: Spec/C08.v Lib/Base.vos Model/Adapters.vos
 Spec/C10.vo Spec/C10.glob Spec/C10.v.beautified Spec/C10.required_vo: Spec/C10.v Lib/Base.vo Lib/Bytestr.vo Model/StreamRec.vo
 Spec/C10.vio: Spec/C10.v Lib/Base.vio Lib/Bytestr.vio Model/StreamRec.vio
 Spec/C10.vos Spec/C10.vok Spec/C10.required_vos: Spec/C10.v Lib/Base.vos Lib/Bytestr.vos Model/StreamRec.vos
+Spec/C12.vo Spec/C12.glob Spec/C12.v.beautified Spec/C12.required_vo: Spec/C12.v Lib/Base.vo Model/Tfr.vo
+Spec/C12.vio: Spec/C12.v Lib/Base.vio Model/Tfr.vio
+Spec/C12.vos Spec/C12.vok Spec/C12.required_vos: Spec/C12.v Lib/Base.vos Model/Tfr.vos
 Spec/C15.vo Spec/C15.glob Spec/C15.v.beautified Spec/C15.required_vo: Spec/C15.v Lib/Base.vo Lib/Sort.vo Model/Reactor.vo Model/Spinner.vo
 Spec/C15.vio: Spec/C15.v Lib/Base.vio Lib/Sort.vio Model/Reactor.vio Model/Spinner.vio
 Spec/C15.vos Spec/C15.vok Spec/C15.required_vos: Spec/C15.v Lib/Base.vos Lib/Sort.vos Model/Reactor.vos Model/Spinner.vos
+Spec/C16.vo Spec/C16.glob Spec/C16.v.beautified Spec/C16.required_vo: Spec/C16.v Lib/Base.vo Model/Utf8.vo Model/MimeCt.vo Model/Content.vo
+Spec/C16.vio: Spec/C16.v Lib/Base.vio Model/Utf8.vio Model/MimeCt.vio Model/Content.vio
+Spec/C16.vos Spec/C16.vok Spec/C16.required_vos: Spec/C16.v Lib/Base.vos Model/Utf8.vos Model/MimeCt.vos Model/Content.vos
 Spec/C17.vo Spec/C17.glob Spec/C17.v.beautified Spec/C17.required_vo: Spec/C17.v Lib/Base.vo Model/Tags.vo
 Spec/C17.vio: Spec/C17.v Lib/Base.vio Model/Tags.vio
 Spec/C17.vos Spec/C17.vok Spec/C17.required_vos: Spec/C17.v Lib/Base.vos Model/Tags.vos
@@ -52,12 +103,39 @@ Spec/C18.vos Spec/C18.vok Spec/C18.required_vos: Spec/C18.v Lib/Base.vos Model/R
 Spec/C19.vo Spec/C19.glob Spec/C19.v.beautified Spec/C19.required_vo: Spec/C19.v Lib/Base.vo Lib/Sort.vo Model/Suites.vo
 Spec/C19.vio: Spec/C19.v Lib/Base.vio Lib/Sort.vio Model/Suites.vio
 Spec/C19.vos Spec/C19.vok Spec/C19.required_vos: Spec/C19.v Lib/Base.vos Lib/Sort.vos Model/Suites.vos
+Spec/C20.vo Spec/C20.glob Spec/C20.v.beautified Spec/C20.required_vo: Spec/C20.v Lib/Base.vo Model/Deferred.vo Model/DeferredMatchers.vo
+Spec/C20.vio: Spec/C20.v Lib/Base.vio Model/Deferred.vio Model/DeferredMatchers.vio
+Spec/C20.vos Spec/C20.vok Spec/C20.required_vos: Spec/C20.v Lib/Base.vos Model/Deferred.vos Model/DeferredMatchers.vos
+Spec/Run.vo Spec/Run.glob Spec/Run.v.beautified Spec/Run.required_vo: Spec/Run.v Lib/Base.vo Gen/Handlers.vo Model/Run.vo
+Spec/Run.vio: Spec/Run.v Lib/Base.vio Gen/Handlers.vio Model/Run.vio
+Spec/Run.vos Spec/Run.vok Spec/Run.required_vos: Spec/Run.v Lib/Base.vos Gen/Handlers.vos Model/Run.vos
+Corr/C01.vo Corr/C01.glob Corr/C01.v.beautified Corr/C01.required_vo: Corr/C01.v Lib/Base.vo Gen/Handlers.vo Model/Run.vo Spec/Run.vo Spec/C01.vo
+Corr/C01.vio: Corr/C01.v Lib/Base.vio Gen/Handlers.vio Model/Run.vio Spec/Run.vio Spec/C01.vio
+Corr/C01.vos Corr/C01.vok Corr/C01.required_vos: Corr/C01.v Lib/Base.vos Gen/Handlers.vos Model/Run.vos Spec/Run.vos Spec/C01.vos
+Corr/C02.vo Corr/C02.glob Corr/C02.v.beautified Corr/C02.required_vo: Corr/C02.v Lib/Base.vo Gen/Handlers.vo Model/Run.vo Spec/Run.vo Spec/C02.vo
+Corr/C02.vio: Corr/C02.v Lib/Base.vio Gen/Handlers.vio Model/Run.vio Spec/Run.vio Spec/C02.vio
+Corr/C02.vos Corr/C02.vok Corr/C02.required_vos: Corr/C02.v Lib/Base.vos Gen/Handlers.vos Model/Run.vos Spec/Run.vos Spec/C02.vos
+Corr/C03.vo Corr/C03.glob Corr/C03.v.beautified Corr/C03.required_vo: Corr/C03.v Lib/Base.vo Gen/Handlers.vo Model/Run.vo Spec/Run.vo Spec/C03.vo
+Corr/C03.vio: Corr/C03.v Lib/Base.vio Gen/Handlers.vio Model/Run.vio Spec/Run.vio Spec/C03.vio
+Corr/C03.vos Corr/C03.vok Corr/C03.required_vos: Corr/C03.v Lib/Base.vos Gen/Handlers.vos Model/Run.vos Spec/Run.vos Spec/C03.vos
+Corr/C06.vo Corr/C06.glob Corr/C06.v.beautified Corr/C06.required_vo: Corr/C06.v Lib/Base.vo Lib/Sort.vo Model/Matchers.vo Spec/C06.vo
+Corr/C06.vio: Corr/C06.v Lib/Base.vio Lib/Sort.vio Model/Matchers.vio Spec/C06.vio
+Corr/C06.vos Corr/C06.vok Corr/C06.required_vos: Corr/C06.v Lib/Base.vos Lib/Sort.vos Model/Matchers.vos Spec/C06.vos
+Corr/C08.vo Corr/C08.glob Corr/C08.v.beautified Corr/C08.required_vo: Corr/C08.v Lib/Base.vo Model/Adapters.vo Spec/C08.vo
+Corr/C08.vio: Corr/C08.v Lib/Base.vio Model/Adapters.vio Spec/C08.vio
+Corr/C08.vos Corr/C08.vok Corr/C08.required_vos: Corr/C08.v Lib/Base.vos Model/Adapters.vos Spec/C08.vos
 Corr/C10.vo Corr/C10.glob Corr/C10.v.beautified Corr/C10.required_vo: Corr/C10.v Lib/Base.vo Lib/Bytestr.vo Model/StreamRec.vo Spec/C10.vo
 Corr/C10.vio: Corr/C10.v Lib/Base.vio Lib/Bytestr.vio Model/StreamRec.vio Spec/C10.vio
 Corr/C10.vos Corr/C10.vok Corr/C10.required_vos: Corr/C10.v Lib/Base.vos Lib/Bytestr.vos Model/StreamRec.vos Spec/C10.vos
+Corr/C12.vo Corr/C12.glob Corr/C12.v.beautified Corr/C12.required_vo: Corr/C12.v Lib/Base.vo Model/Tfr.vo Spec/C12.vo
+Corr/C12.vio: Corr/C12.v Lib/Base.vio Model/Tfr.vio Spec/C12.vio
+Corr/C12.vos Corr/C12.vok Corr/C12.required_vos: Corr/C12.v Lib/Base.vos Model/Tfr.vos Spec/C12.vos
 Corr/C15.vo Corr/C15.glob Corr/C15.v.beautified Corr/C15.required_vo: Corr/C15.v Lib/Base.vo Lib/Sort.vo Model/Reactor.vo Model/Spinner.vo Gen/Spinnertabs.vo Spec/C15.vo
 Corr/C15.vio: Corr/C15.v Lib/Base.vio Lib/Sort.vio Model/Reactor.vio Model/Spinner.vio Gen/Spinnertabs.vio Spec/C15.vio
 Corr/C15.vos Corr/C15.vok Corr/C15.required_vos: Corr/C15.v Lib/Base.vos Lib/Sort.vos Model/Reactor.vos Model/Spinner.vos Gen/Spinnertabs.vos Spec/C15.vos
+Corr/C16.vo Corr/C16.glob Corr/C16.v.beautified Corr/C16.required_vo: Corr/C16.v Lib/Base.vo Lib/Sort.vo Model/Utf8.vo Model/MimeCt.vo Gen/Ctc16.vo Model/Content.vo Spec/C16.vo
+Corr/C16.vio: Corr/C16.v Lib/Base.vio Lib/Sort.vio Model/Utf8.vio Model/MimeCt.vio Gen/Ctc16.vio Model/Content.vio Spec/C16.vio
+Corr/C16.vos Corr/C16.vok Corr/C16.required_vos: Corr/C16.v Lib/Base.vos Lib/Sort.vos Model/Utf8.vos Model/MimeCt.vos Gen/Ctc16.vos Model/Content.vos Spec/C16.vos
 Corr/C17.vo Corr/C17.glob Corr/C17.v.beautified Corr/C17.required_vo: Corr/C17.v Lib/Base.vo Model/Tags.vo Spec/C17.vo
 Corr/C17.vio: Corr/C17.v Lib/Base.vio Model/Tags.vio Spec/C17.vio
 Corr/C17.vos Corr/C17.vok Corr/C17.required_vos: Corr/C17.v Lib/Base.vos Model/Tags.vos Spec/C17.vos
@@ -67,12 +145,33 @@ Corr/C18.vos Corr/C18.vok Corr/C18.required_vos: Corr/C18.v Lib/Base.vos Model/R
 Corr/C19.vo Corr/C19.glob Corr/C19.v.beautified Corr/C19.required_vo: Corr/C19.v Lib/Base.vo Lib/Sort.vo Model/Suites.vo Spec/C19.vo
 Corr/C19.vio: Corr/C19.v Lib/Base.vio Lib/Sort.vio Model/Suites.vio Spec/C19.vio
 Corr/C19.vos Corr/C19.vok Corr/C19.required_vos: Corr/C19.v Lib/Base.vos Lib/Sort.vos Model/Suites.vos Spec/C19.vos
-Proof/C10.vo Proof/C10.glob Proof/C10.v.beautified Proof/C10.required_vo: Proof/C10.v Lib/Base.vo Lib/Bytestr.vo Model/StreamRec.vo Spec/C10.vo Corr/C10.vo
-Proof/C10.vio: Proof/C10.v Lib/Base.vio Lib/Bytestr.vio Model/StreamRec.vio Spec/C10.vio Corr/C10.vio
-Proof/C10.vos Proof/C10.vok Proof/C10.required_vos: Proof/C10.v Lib/Base.vos Lib/Bytestr.vos Model/StreamRec.vos Spec/C10.vos Corr/C10.vos
+Corr/C20.vo Corr/C20.glob Corr/C20.v.beautified Corr/C20.required_vo: Corr/C20.v Lib/Base.vo Model/Deferred.vo Model/DeferredMatchers.vo Spec/C20.vo
+Corr/C20.vio: Corr/C20.v Lib/Base.vio Model/Deferred.vio Model/DeferredMatchers.vio Spec/C20.vio
+Corr/C20.vos Corr/C20.vok Corr/C20.required_vos: Corr/C20.v Lib/Base.vos Model/Deferred.vos Model/DeferredMatchers.vos Spec/C20.vos
+Proof/C01.vo Proof/C01.glob Proof/C01.v.beautified Proof/C01.required_vo: Proof/C01.v Lib/Base.vo Gen/Handlers.vo Model/Run.vo Spec/Run.vo Spec/C01.vo Corr/C01.vo
+Proof/C01.vio: Proof/C01.v Lib/Base.vio Gen/Handlers.vio Model/Run.vio Spec/Run.vio Spec/C01.vio Corr/C01.vio
+Proof/C01.vos Proof/C01.vok Proof/C01.required_vos: Proof/C01.v Lib/Base.vos Gen/Handlers.vos Model/Run.vos Spec/Run.vos Spec/C01.vos Corr/C01.vos
+Proof/C02.vo Proof/C02.glob Proof/C02.v.beautified Proof/C02.required_vo: Proof/C02.v Lib/Base.vo Gen/Handlers.vo Model/Run.vo Spec/Run.vo Spec/C02.vo Corr/C02.vo
+Proof/C02.vio: Proof/C02.v Lib/Base.vio Gen/Handlers.vio Model/Run.vio Spec/Run.vio Spec/C02.vio Corr/C02.vio
+Proof/C02.vos Proof/C02.vok Proof/C02.required_vos: Proof/C02.v Lib/Base.vos Gen/Handlers.vos Model/Run.vos Spec/Run.vos Spec/C02.vos Corr/C02.vos
+Proof/C03.vo Proof/C03.glob Proof/C03.v.beautified Proof/C03.required_vo: Proof/C03.v Lib/Base.vo Gen/Handlers.vo Model/Run.vo Spec/Run.vo Spec/C03.vo Corr/C03.vo
+Proof/C03.vio: Proof/C03.v Lib/Base.vio Gen/Handlers.vio Model/Run.vio Spec/Run.vio Spec/C03.vio Corr/C03.vio
+Proof/C03.vos Proof/C03.vok Proof/C03.required_vos: Proof/C03.v Lib/Base.vos Gen/Handlers.vos Model/Run.vos Spec/Run.vos Spec/C03.vos Corr/C03.vos
+Proof/C08.vo Proof/C08.glob Proof/C08.v.beautified Proof/C08.required_vo: Proof/C08.v Lib/Base.vo Model/Adapters.vo Spec/C08.vo Corr/C08.vo
+Proof/C08.vio: Proof/C08.v Lib/Base.vio Model/Adapters.vio Spec/C08.vio Corr/C08.vio
+Proof/C08.vos Proof/C08.vok Proof/C08.required_vos: Proof/C08.v Lib/Base.vos Model/Adapters.vos Spec/C08.vos Corr/C08.vos
+Proof/C10.vo Proof/C10.glob Proof/C10.v.beautified Proof/C10.required_vo: Proof/C10.v Lib/Base.vo Lib/Bytestr.vo Gen/Streamtabs.vo Model/StreamRec.vo Spec/C10.vo Corr/C10.vo
+Proof/C10.vio: Proof/C10.v Lib/Base.vio Lib/Bytestr.vio Gen/Streamtabs.vio Model/StreamRec.vio Spec/C10.vio Corr/C10.vio
+Proof/C10.vos Proof/C10.vok Proof/C10.required_vos: Proof/C10.v Lib/Base.vos Lib/Bytestr.vos Gen/Streamtabs.vos Model/StreamRec.vos Spec/C10.vos Corr/C10.vos
+Proof/C12.vo Proof/C12.glob Proof/C12.v.beautified Proof/C12.required_vo: Proof/C12.v Lib/Base.vo Model/Tfr.vo Spec/C12.vo Corr/C12.vo
+Proof/C12.vio: Proof/C12.v Lib/Base.vio Model/Tfr.vio Spec/C12.vio Corr/C12.vio
+Proof/C12.vos Proof/C12.vok Proof/C12.required_vos: Proof/C12.v Lib/Base.vos Model/Tfr.vos Spec/C12.vos Corr/C12.vos
 Proof/C15.vo Proof/C15.glob Proof/C15.v.beautified Proof/C15.required_vo: Proof/C15.v Lib/Base.vo Lib/Sort.vo Model/Reactor.vo Model/Spinner.vo Gen/Spinnertabs.vo Spec/C15.vo Corr/C15.vo
 Proof/C15.vio: Proof/C15.v Lib/Base.vio Lib/Sort.vio Model/Reactor.vio Model/Spinner.vio Gen/Spinnertabs.vio Spec/C15.vio Corr/C15.vio
 Proof/C15.vos Proof/C15.vok Proof/C15.required_vos: Proof/C15.v Lib/Base.vos Lib/Sort.vos Model/Reactor.vos Model/Spinner.vos Gen/Spinnertabs.vos Spec/C15.vos Corr/C15.vos
+Proof/C16.vo Proof/C16.glob Proof/C16.v.beautified Proof/C16.required_vo: Proof/C16.v Lib/Base.vo Model/Utf8.vo Model/MimeCt.vo Model/Content.vo Spec/C16.vo Corr/C16.vo
+Proof/C16.vio: Proof/C16.v Lib/Base.vio Model/Utf8.vio Model/MimeCt.vio Model/Content.vio Spec/C16.vio Corr/C16.vio
+Proof/C16.vos Proof/C16.vok Proof/C16.required_vos: Proof/C16.v Lib/Base.vos Model/Utf8.vos Model/MimeCt.vos Model/Content.vos Spec/C16.vos Corr/C16.vos
 Proof/C17.vo Proof/C17.glob Proof/C17.v.beautified Proof/C17.required_vo: Proof/C17.v Lib/Base.vo Model/Tags.vo Spec/C17.vo Corr/C17.vo
 Proof/C17.vio: Proof/C17.v Lib/Base.vio Model/Tags.vio Spec/C17.vio Corr/C17.vio
 Proof/C17.vos Proof/C17.vok Proof/C17.required_vos: Proof/C17.v Lib/Base.vos Model/Tags.vos Spec/C17.vos Corr/C17.vos
@@ -82,12 +181,42 @@ Proof/C18.vos Proof/C18.vok Proof/C18.required_vos: Proof/C18.v Lib/Base.vos Mod
 Proof/C19.vo Proof/C19.glob Proof/C19.v.beautified Proof/C19.required_vo: Proof/C19.v Lib/Base.vo Lib/Sort.vo Model/Suites.vo Spec/C19.vo Corr/C19.vo
 Proof/C19.vio: Proof/C19.v Lib/Base.vio Lib/Sort.vio Model/Suites.vio Spec/C19.vio Corr/C19.vio
 Proof/C19.vos Proof/C19.vok Proof/C19.required_vos: Proof/C19.v Lib/Base.vos Lib/Sort.vos Model/Suites.vos Spec/C19.vos Corr/C19.vos
-Props/C10.vo Props/C10.glob Props/C10.v.beautified Props/C10.required_vo: Props/C10.v Lib/Base.vo Lib/Bytestr.vo Model/StreamRec.vo Spec/C10.vo Corr/C10.vo Proof/C10.vo
-Props/C10.vio: Props/C10.v Lib/Base.vio Lib/Bytestr.vio Model/StreamRec.vio Spec/C10.vio Corr/C10.vio Proof/C10.vio
-Props/C10.vos Props/C10.vok Props/C10.required_vos: Props/C10.v Lib/Base.vos Lib/Bytestr.vos Model/StreamRec.vos Spec/C10.vos Corr/C10.vos Proof/C10.vos
+Proof/C20.vo Proof/C20.glob Proof/C20.v.beautified Proof/C20.required_vo: Proof/C20.v Lib/Base.vo Model/Deferred.vo Model/DeferredMatchers.vo Spec/C20.vo Corr/C20.vo
+Proof/C20.vio: Proof/C20.v Lib/Base.vio Model/Deferred.vio Model/DeferredMatchers.vio Spec/C20.vio Corr/C20.vio
+Proof/C20.vos Proof/C20.vok Proof/C20.required_vos: Proof/C20.v Lib/Base.vos Model/Deferred.vos Model/DeferredMatchers.vos Spec/C20.vos Corr/C20.vos
+Proof/RunCore.vo Proof/RunCore.glob Proof/RunCore.v.beautified Proof/RunCore.required_vo: Proof/RunCore.v Lib/Base.vo Gen/Handlers.vo Model/Run.vo Spec/Run.vo
+Proof/RunCore.vio: Proof/RunCore.v Lib/Base.vio Gen/Handlers.vio Model/Run.vio Spec/Run.vio
+Proof/RunCore.vos Proof/RunCore.vok Proof/RunCore.required_vos: Proof/RunCore.v Lib/Base.vos Gen/Handlers.vos Model/Run.vos Spec/Run.vos
+Proof/Utf8Sweep.vo Proof/Utf8Sweep.glob Proof/Utf8Sweep.v.beautified Proof/Utf8Sweep.required_vo: Proof/Utf8Sweep.v Lib/Base.vo Model/Utf8.vo
+Proof/Utf8Sweep.vio: Proof/Utf8Sweep.v Lib/Base.vio Model/Utf8.vio
+Proof/Utf8Sweep.vos Proof/Utf8Sweep.vok Proof/Utf8Sweep.required_vos: Proof/Utf8Sweep.v Lib/Base.vos Model/Utf8.vos
+Props/C01.vo Props/C01.glob Props/C01.v.beautified Props/C01.required_vo: Props/C01.v Lib/Base.vo Gen/Handlers.vo Model/Run.vo Spec/Run.vo Spec/C01.vo Corr/C01.vo Proof/C01.vo
+Props/C01.vio: Props/C01.v Lib/Base.vio Gen/Handlers.vio Model/Run.vio Spec/Run.vio Spec/C01.vio Corr/C01.vio Proof/C01.vio
+Props/C01.vos Props/C01.vok Props/C01.required_vos: Props/C01.v Lib/Base.vos Gen/Handlers.vos Model/Run.vos Spec/Run.vos Spec/C01.vos Corr/C01.vos Proof/C01.vos
+Props/C02.vo Props/C02.glob Props/C02.v.beautified Props/C02.required_vo: Props/C02.v Lib/Base.vo Gen/Handlers.vo Model/Run.vo Spec/Run.vo Spec/C02.vo Corr/C02.vo Proof/C02.vo
+Props/C02.vio: Props/C02.v Lib/Base.vio Gen/Handlers.vio Model/Run.vio Spec/Run.vio Spec/C02.vio Corr/C02.vio Proof/C02.vio
+Props/C02.vos Props/C02.vok Props/C02.required_vos: Props/C02.v Lib/Base.vos Gen/Handlers.vos Model/Run.vos Spec/Run.vos Spec/C02.vos Corr/C02.vos Proof/C02.vos
+Props/C03.vo Props/C03.glob Props/C03.v.beautified Props/C03.required_vo: Props/C03.v Lib/Base.vo Gen/Handlers.vo Model/Run.vo Spec/Run.vo Spec/C03.vo Corr/C03.vo Proof/C03.vo
+Props/C03.vio: Props/C03.v Lib/Base.vio Gen/Handlers.vio Model/Run.vio Spec/Run.vio Spec/C03.vio Corr/C03.vio Proof/C03.vio
+Props/C03.vos Props/C03.vok Props/C03.required_vos: Props/C03.v Lib/Base.vos Gen/Handlers.vos Model/Run.vos Spec/Run.vos Spec/C03.vos Corr/C03.vos Proof/C03.vos
+Props/C06.vo Props/C06.glob Props/C06.v.beautified Props/C06.required_vo: Props/C06.v Lib/Base.vo Model/Matchers.vo Spec/C06.vo Corr/C06.vo
+Props/C06.vio: Props/C06.v Lib/Base.vio Model/Matchers.vio Spec/C06.vio Corr/C06.vio
+Props/C06.vos Props/C06.vok Props/C06.required_vos: Props/C06.v Lib/Base.vos Model/Matchers.vos Spec/C06.vos Corr/C06.vos
+Props/C08.vo Props/C08.glob Props/C08.v.beautified Props/C08.required_vo: Props/C08.v Lib/Base.vo Model/Adapters.vo Spec/C08.vo Corr/C08.vo Proof/C08.vo
+Props/C08.vio: Props/C08.v Lib/Base.vio Model/Adapters.vio Spec/C08.vio Corr/C08.vio Proof/C08.vio
+Props/C08.vos Props/C08.vok Props/C08.required_vos: Props/C08.v Lib/Base.vos Model/Adapters.vos Spec/C08.vos Corr/C08.vos Proof/C08.vos
+Props/C10.vo Props/C10.glob Props/C10.v.beautified Props/C10.required_vo: Props/C10.v Lib/Base.vo Lib/Bytestr.vo Gen/Streamtabs.vo Model/StreamRec.vo Spec/C10.vo Corr/C10.vo Proof/C10.vo
+Props/C10.vio: Props/C10.v Lib/Base.vio Lib/Bytestr.vio Gen/Streamtabs.vio Model/StreamRec.vio Spec/C10.vio Corr/C10.vio Proof/C10.vio
+Props/C10.vos Props/C10.vok Props/C10.required_vos: Props/C10.v Lib/Base.vos Lib/Bytestr.vos Gen/Streamtabs.vos Model/StreamRec.vos Spec/C10.vos Corr/C10.vos Proof/C10.vos
+Props/C12.vo Props/C12.glob Props/C12.v.beautified Props/C12.required_vo: Props/C12.v Lib/Base.vo Model/Tfr.vo Spec/C12.vo Corr/C12.vo Proof/C12.vo
+Props/C12.vio: Props/C12.v Lib/Base.vio Model/Tfr.vio Spec/C12.vio Corr/C12.vio Proof/C12.vio
+Props/C12.vos Props/C12.vok Props/C12.required_vos: Props/C12.v Lib/Base.vos Model/Tfr.vos Spec/C12.vos Corr/C12.vos Proof/C12.vos
 Props/C15.vo Props/C15.glob Props/C15.v.beautified Props/C15.required_vo: Props/C15.v Lib/Base.vo Lib/Sort.vo Model/Reactor.vo Model/Spinner.vo Gen/Spinnertabs.vo Spec/C15.vo Corr/C15.vo Proof/C15.vo
 Props/C15.vio: Props/C15.v Lib/Base.vio Lib/Sort.vio Model/Reactor.vio Model/Spinner.vio Gen/Spinnertabs.vio Spec/C15.vio Corr/C15.vio Proof/C15.vio
 Props/C15.vos Props/C15.vok Props/C15.required_vos: Props/C15.v Lib/Base.vos Lib/Sort.vos Model/Reactor.vos Model/Spinner.vos Gen/Spinnertabs.vos Spec/C15.vos Corr/C15.vos Proof/C15.vos
+Props/C16.vo Props/C16.glob Props/C16.v.beautified Props/C16.required_vo: Props/C16.v Lib/Base.vo Model/Utf8.vo Model/MimeCt.vo Model/Content.vo Spec/C16.vo Corr/C16.vo Proof/C16.vo
+Props/C16.vio: Props/C16.v Lib/Base.vio Model/Utf8.vio Model/MimeCt.vio Model/Content.vio Spec/C16.vio Corr/C16.vio Proof/C16.vio
+Props/C16.vos Props/C16.vok Props/C16.required_vos: Props/C16.v Lib/Base.vos Model/Utf8.vos Model/MimeCt.vos Model/Content.vos Spec/C16.vos Corr/C16.vos Proof/C16.vos
 Props/C17.vo Props/C17.glob Props/C17.v.beautified Props/C17.required_vo: Props/C17.v Lib/Base.vo Model/Tags.vo Spec/C17.vo Corr/C17.vo Proof/C17.vo
 Props/C17.vio: Props/C17.v Lib/Base.vio Model/Tags.vio Spec/C17.vio Corr/C17.vio Proof/C17.vio
 Props/C17.vos Props/C17.vok Props/C17.required_vos: Props/C17.v Lib/Base.vos Model/Tags.vos Spec/C17.vos Corr/C17.vos Proof/C17.vos
@@ -97,3 +226,6 @@ Props/C18.vos Props/C18.vok Props/C18.required_vos: Props/C18.v Lib/Base.vos Mod
 Props/C19.vo Props/C19.glob Props/C19.v.beautified Props/C19.required_vo: Props/C19.v Lib/Base.vo Lib/Sort.vo Model/Suites.vo Spec/C19.vo Corr/C19.vo Proof/C19.vo
 Props/C19.vio: Props/C19.v Lib/Base.vio Lib/Sort.vio Model/Suites.vio Spec/C19.vio Corr/C19.vio Proof/C19.vio
 Props/C19.vos Props/C19.vok Props/C19.required_vos: Props/C19.v Lib/Base.vos Lib/Sort.vos Model/Suites.vos Spec/C19.vos Corr/C19.vos Proof/C19.vos
+Props/C20.vo Props/C20.glob Props/C20.v.beautified Props/C20.required_vo: Props/C20.v Lib/Base.vo Model/Deferred.vo Model/DeferredMatchers.vo Spec/C20.vo Corr/C20.vo Proof/C20.vo
+Props/C20.vio: Props/C20.v Lib/Base.vio Model/Deferred.vio Model/DeferredMatchers.vio Spec/C20.vio Corr/C20.vio Proof/C20.vio
+Props/C20.vos Props/C20.vok Props/C20.required_vos: Props/C20.v Lib/Base.vos Model/Deferred.vos Model/DeferredMatchers.vos Spec/C20.vos Corr/C20.vos Proof/C20.vos
